@@ -26,7 +26,10 @@ def selCase (s : NpState) (c : String) : Option NpResult :=
 
 theorem nextPackage_eq (sel : List String) (cf : Bool) (s : NpState) :
     nextPackage sel cf s =
-      if cf && s.closed then [.closed] else if s.queued > 0 then [.pkg] else sel.filterMap (selCase s) := rfl
+      if cf && s.closed then [.closed] else if s.queued > 0 then [.pkg] else sel.filterMap (selCase s) := by
+  -- the first look at the package queue is the regenerated fact `nextPackageLooksAtQueueFirst`
+  simp only [nextPackage, nextPackageLooksAtQueueFirst, Bool.true_and, decide_eq_true_eq]
+  rfl
 
 /-- the select of `NextPackage` watches both contexts (regenerated fact) -/
 theorem select_watches_contexts :
@@ -78,6 +81,16 @@ theorem c13_cancel_results (s : NpState) (r : NpResult)
       exact Or.inr (Or.inl ⟨hr, hq⟩)
     · obtain ⟨c, _, hc⟩ := List.mem_filterMap.1 hr
       exact Or.inr (selCase_sound s c r hc)
+
+/-- **what was received is handed out before any error queued behind it**: with a package in the queue (and
+the channel open) `NextPackage` returns that package — not an error of the channel or of the connection,
+not the end of a context — whatever else is ready. (The non-blocking first look at the package queue is a
+regenerated fact; the `eof` scripts of the C08 harness — the peer goes away right behind its acceptance —
+tie it to the code.) -/
+theorem c13_received_before_errors (s : NpState) (hq : s.queued > 0) (hc : s.closed = false) :
+    nextPackage nextPackageSelect nextPackageChecksClosedFirst s = [.pkg] := by
+  rw [nextPackage_eq]
+  simp [hc, hq]
 
 /-- after Close every receive reports the closed condition, whatever is queued -/
 theorem c13_closed_reports (s : NpState) (h : s.closed = true) :
